@@ -8,9 +8,12 @@ From Coq Require Import Reals Lra.
 Import ListNotations.
 Local Open Scope R_scope.
 
-Definition Rops : ops R :=
+(* the inverse normal cdf and the normal pdf used by phi_transform are parameters *)
+Definition RopsP (ndtri npdf : R -> R) : ops R :=
   mkops R Rplus Rminus Rmult Rdiv Ropp sqrt (fun x => x * x) 0 1 2 (1 / 2)
-        ln exp (fun x => ln (1 + x)) Rmax INR (fun x => x) (fun a b => (a, b)).
+        ln exp (fun x => ln (1 + x)) Rmax INR (fun x => x) (fun a b => (a, b))
+        10 (fun x => ln x / ln 10) ndtri npdf.
+Definition Rops : ops R := RopsP (fun x => x) (fun x => x).
 
 Notation rmsg := (msg (T := R)).
 Notation rto := (to_nat Rops).
@@ -286,3 +289,94 @@ Proof.
   - unfold Rdiv. apply (derivable_pt_lim_scal_right ln). apply derivable_pt_lim_ln. exact Hx.
   - apply Rmult_lt_0_compat; apply Rinv_0_lt_compat; [exact Hx | exact ln10_pos].
 Qed.
+
+(* ------------------------------------------------------------------ *)
+(* the model's own `t_apply` / `tdet` / `factor` (the definitions compared bit-for-bit with
+   TransformedMessage._transform_det and .factor), instantiated over the reals *)
+Section ModelDet.
+  Variables ndtri npdf : R -> R.
+  Notation OP := (RopsP ndtri npdf).
+
+  (* side conditions under which a transform is differentiable at x with positive derivative;
+     for phi_transform they are assumptions on the library functions at that point *)
+  Definition good_t (t : transform R) (x : R) : Prop :=
+    match t with
+    | TShift s c => 0 < c
+    | TLog | TLog10 => 0 < x
+    | TExp => True
+    | TPhi => derivable_pt_lim ndtri x (1 / npdf (ndtri x)) /\ 0 < npdf (ndtri x)
+    end.
+
+  Definition t_der (t : transform R) (x : R) : R :=
+    match t with
+    | TShift s c => / c
+    | TLog => 1 / x
+    | TExp => exp x
+    | TLog10 => 1 / x / ln 10
+    | TPhi => 1 / npdf (ndtri x)
+    end.
+
+  Lemma t_apply_good (t : transform R) (x : R) : good_t t x ->
+    derivable_pt_lim (fun z => fst (t_apply OP t z)) x (t_der t x) /\ 0 < t_der t x
+    /\ snd (t_apply OP t x) = ln (t_der t x).
+  Proof.
+    destruct t as [| | | |s c]; cbn; intro G; repeat split.
+    - exact (proj1 G).
+    - apply Rdiv_lt_0_compat; [lra | exact (proj2 G)].
+    - replace (1 / x) with (/ x) by (unfold Rdiv; ring). apply derivable_pt_lim_ln. exact G.
+    - apply Rdiv_lt_0_compat; lra.
+    - replace (1 / x / ln 10) with (/ x * / ln 10) by (unfold Rdiv; ring).
+      apply (derivable_pt_lim_scal_right ln x (/ x) (/ ln 10)). apply derivable_pt_lim_ln. exact G.
+    - apply Rdiv_lt_0_compat; [apply Rdiv_lt_0_compat; lra | exact ln10_pos].
+    - apply derivable_pt_lim_exp.
+    - apply exp_pos.
+    - replace (/ c) with ((1 - 0) * / c) by ring.
+      apply (derivable_pt_lim_scal_right (fun z => z - s) x (1 - 0) (/ c)).
+      apply (derivable_pt_lim_minus id (fun _ => s)); [apply derivable_pt_lim_id | apply derivable_pt_lim_const].
+    - apply Rinv_0_lt_compat. exact G.
+    - rewrite ln_Rinv by exact G. ring.
+  Qed.
+
+  Fixpoint good_stack (rs : list (transform R)) (x : R) : Prop :=
+    match rs with
+    | [] => True
+    | t :: r => good_t t x /\ good_stack r (fst (t_apply OP t x))
+    end.
+
+  Lemma tdet_fst_indep (rs : list (transform R)) : forall x l l', fst (Model.tdet OP rs x l) = fst (Model.tdet OP rs x l').
+  Proof. induction rs as [|t r IH]; intros x l l'; cbn [Model.tdet]; [reflexivity | apply IH]. Qed.
+
+  Lemma tdet_snd_shift (rs : list (transform R)) : forall x l, snd (Model.tdet OP rs x l) = l + snd (Model.tdet OP rs x 0).
+  Proof.
+    induction rs as [|t r IH]; intros x l; cbn [Model.tdet snd]; [ring|].
+    rewrite (IH _ (oadd OP l _)), (IH _ (oadd OP 0 _)). cbn [oadd RopsP]. ring.
+  Qed.
+
+  (* chain rule for the model's accumulated log-determinant *)
+  Lemma model_tdet_chain (rs : list (transform R)) : forall x, good_stack rs x ->
+    exists D, derivable_pt_lim (fun z => fst (Model.tdet OP rs z 0)) x D /\ 0 < D /\ snd (Model.tdet OP rs x 0) = ln D.
+  Proof.
+    induction rs as [|t r IH]; intros x G.
+    - exists 1. cbn. split; [apply derivable_pt_lim_id | split; [lra | symmetry; apply ln_1]].
+    - destruct G as [Gt Gr]. destruct (t_apply_good t x Gt) as (Dt & Pt & Lt).
+      destruct (IH _ Gr) as (D & DD & PD & LD).
+      exists (D * t_der t x). split; [|split].
+      + assert (E : forall z, fst (Model.tdet OP (t :: r) z 0) = (fun y => fst (Model.tdet OP r y 0)) (fst (t_apply OP t z))).
+        { intro z. cbn [Model.tdet]. apply tdet_fst_indep. }
+        apply (derivable_pt_lim_ext (fun z => (fun y => fst (Model.tdet OP r y 0)) (fst (t_apply OP t z)))).
+        * intro z. symmetry. apply E.
+        * apply (derivable_pt_lim_comp (fun z => fst (t_apply OP t z)) (fun y => fst (Model.tdet OP r y 0))); assumption.
+      + apply Rmult_lt_0_compat; assumption.
+      + cbn [Model.tdet]. rewrite tdet_snd_shift, LD, Lt. cbn [oadd RopsP]. rewrite ln_mult by assumption. ring.
+  Qed.
+
+  (* factor(x) = p(T x) + ln T'(x): the change-of-variables log-density of the base density p *)
+  Lemma model_factor_change_of_variables (p : R -> R) (stack : list (transform R)) (x : R) :
+    good_stack (rev stack) x ->
+    exists D, derivable_pt_lim (fun z => fst (transform_det OP stack z)) x D /\ 0 < D /\
+              Model.factor OP p stack x = p (fst (transform_det OP stack x)) + ln D.
+  Proof.
+    intro G. destruct (model_tdet_chain (rev stack) x G) as (D & DD & PD & LD).
+    exists D. unfold Model.factor, transform_det in *. cbn [c0 RopsP oadd]. rewrite LD. auto.
+  Qed.
+End ModelDet.
